@@ -16,10 +16,14 @@ Set Implicit Arguments.
 Ltac counts :=
   unfold pin, pout, hin, hout, din, dout, cnt in *; cbn.
 
+(** substitute the components [s' os a] of a handler result (equations [value = variable]) *)
+Ltac subst_res :=
+  repeat match goal with H : _ = ?x |- _ => is_var x; subst x end.
+
 (** the equations a relay satisfies step by step; [Hh] is the equation of [handle] *)
 Ltac relay_in_counts Hh inp :=
   cbn in Hh;
-  destruct inp as [[|?s] ?aux|[|?s] [|?e|]|[|?i] [|?v|?e|]|?s]; inversion Hh; subst; counts; lia.
+  destruct inp as [[|?s] ?aux|[|?s] [|?e|]|[|?i] [|?v|?e|]|?s]; inversion Hh; subst_res; counts; lia.
 
 Section MapFlow.
   Variable f : val -> val.
@@ -49,7 +53,7 @@ Section MapFlow.
       destruct (resume o k (cst c)) as [[s' os] a] eqn:Hres.
       rewrite (step_ret_trace p c Hlive Hst Hres),
         pin_step, pout_step, din_step, dout_step, hin_step, hout_step.
-      cbn in Hres. inversion Hres; subst. counts. lia.
+      cbn in Hres. inversion Hres; subst_res. counts. lia.
   Qed.
 
   (** once the sink has subscribed the upstream has been subscribed *)
@@ -104,7 +108,7 @@ Section MapFlow.
   Proof.
     split.
     - intros i s s' os c k Hh. cbn in Hh. unfold port0.
-      destruct i as [[|?s] ?aux|[|?s] ?u|[|?i] [|?v|?e|]|?s]; inversion Hh; subst; eauto.
+      destruct i as [[|?s] ?aux|[|?s] ?u|[|?i] [|?v|?e|]|?s]; inversion Hh; subst_res; eauto.
     - intros fr s s' os c k Hr. cbn in Hr. discriminate.
   Qed.
 
@@ -163,7 +167,7 @@ Section ScanFlow.
       destruct (resume o k (cst c)) as [[s' os] a] eqn:Hres.
       rewrite (step_ret_trace p c Hlive Hst Hres),
         pin_step, pout_step, din_step, dout_step, hin_step, hout_step.
-      cbn in Hres. inversion Hres; subst. counts. lia.
+      cbn in Hres. inversion Hres; subst_res. counts. lia.
   Qed.
 
   (** once the sink has subscribed the upstream has been subscribed *)
@@ -218,7 +222,7 @@ Section ScanFlow.
   Proof.
     split.
     - intros i s s' os c k Hh. cbn in Hh. unfold port0.
-      destruct i as [[|?s] ?aux|[|?s] ?u|[|?i] [|?v|?e|]|?s]; inversion Hh; subst; eauto.
+      destruct i as [[|?s] ?aux|[|?s] ?u|[|?i] [|?v|?e|]|?s]; inversion Hh; subst_res; eauto.
     - intros fr s s' os c k Hr. cbn in Hr. discriminate.
   Qed.
 
